@@ -21,6 +21,27 @@ pub struct RunOut {
 
 /// parse -> knowledge base -> engine (no wall-clock timeout) -> execute
 pub fn run_grl(grl: &str, facts: &Facts, max_cycles: usize) -> Result<RunOut, (String, String)> {
+    run_grl_via(grl, facts, max_cycles, "execute")
+}
+
+pub const ENTRY_POINTS: [&str; 2] = ["execute", "execute_with_callback"];
+
+/// the same through a named entry point of the forward engine
+pub fn run_grl_via(grl: &str, facts: &Facts, max_cycles: usize, entry: &str) -> Result<RunOut, (String, String)> {
+    if entry == "execute_with_callback" {
+        let rules = GRLParser::parse_rules(grl).map_err(|e| ("parse_error".to_string(), format!("{:?}", e)))?;
+        let kb = KnowledgeBase::new("kb");
+        for r in rules {
+            kb.add_rule(r).map_err(|e| ("kb_error".to_string(), format!("{:?}", e)))?;
+        }
+        let mut e = RustRuleEngine::with_config(kb, EngineConfig { max_cycles, timeout: None, enable_stats: false, debug_mode: false });
+        let mut n = 0usize;
+        let r = e.execute_with_callback(facts, |_name, _facts| n += 1).map_err(|e| ("execute_error".to_string(), format!("{:?}", e)))?;
+        if n != r.rules_fired {
+            return Err(("callback_count_differs".to_string(), format!("callback ran {} times, rules_fired = {}", n, r.rules_fired)));
+        }
+        return Ok(RunOut { fired: r.rules_fired, evaluated: r.rules_evaluated, cycles: r.cycle_count });
+    }
     let rules = GRLParser::parse_rules(grl).map_err(|e| ("parse_error".to_string(), format!("{:?}", e)))?;
     let kb = KnowledgeBase::new("kb");
     for r in rules {
@@ -82,8 +103,22 @@ fn stores() -> Vec<(&'static str, Store)> {
         ("F.n.k", V::Int(5)),
         ("g", s("F.i")),
     ];
+    // floats that differ by less than machine epsilon: == is exact
+    let e: Vec<(&str, V)> = vec![
+        ("F.i", V::Int(5)),
+        ("F.j", V::Float(1e-17)),
+        ("F.x", V::Float(0.1 + 0.2)),
+        ("F.s", s("hello")),
+        ("F.t", s("he")),
+        ("F.b", V::Bool(true)),
+        ("F.arr", V::Arr(vec![V::Float(0.3)])),
+        ("F.n.k", V::Float(0.3)),
+        ("g", V::Float(0.0)),
+    ];
     let mk = |v: &Vec<(&str, V)>, nested: bool| Store { nested, vals: v.iter().map(|(k, x)| (k.to_string(), x.clone())).collect() };
     vec![
+        ("E_near_equal_floats_nested", mk(&e, true)),
+        ("E_near_equal_floats_flat", mk(&e, false)),
         ("A_nested", mk(&a, true)),
         ("A_flat", mk(&a, false)),
         ("B_nested", mk(&b, true)),
@@ -105,7 +140,7 @@ enum Rhs {
 const LHS: [&str; 10] = ["F.i", "F.j", "F.x", "F.s", "F.t", "F.b", "F.arr", "F.n.k", "g", "F.zz"];
 
 fn rhs_all() -> Vec<Rhs> {
-    let mut v: Vec<Rhs> = vec![V::Int(5), V::Int(-3), V::Int(0), V::Int(10), V::Float(2.5), V::Float(5.0), s("hello"), s("he"), s(""), s("lo"), V::Bool(true), V::Bool(false), V::Null, V::Arr(vec![s("a"), s("b")]), V::Arr(vec![V::Int(5), V::Int(10)])]
+    let mut v: Vec<Rhs> = vec![V::Int(5), V::Int(-3), V::Int(0), V::Int(10), V::Float(2.5), V::Float(5.0), V::Float(0.3), s("hello"), s("he"), s(""), s("lo"), V::Bool(true), V::Bool(false), V::Null, V::Arr(vec![s("a"), s("b")]), V::Arr(vec![V::Int(5), V::Int(10)])]
         .into_iter()
         .map(Rhs::Lit)
         .collect();
@@ -206,7 +241,7 @@ fn family_atoms(tier: Tier) -> Acc {
             }
         }
     }
-    acc.rep.bound = format!("every `lhs op rhs` with lhs in {:?}, all 10 operators, {} right-hand sides (typed literals + field references) x {} stores (4 value sets x nested/flat layout + empty; two value sets hold strings that spell the names of other facts)", LHS, rhs_all().len(), st.len());
+    acc.rep.bound = format!("every `lhs op rhs` with lhs in {:?}, all 10 operators, {} right-hand sides (typed literals + field references) x {} stores (5 value sets x nested/flat layout + empty; two value sets hold strings that spell the names of other facts, one holds floats that differ by less than machine epsilon)", LHS, rhs_all().len(), st.len());
     acc
 }
 
